@@ -52,6 +52,9 @@ structure StepOut where
   model : String
   oracle : List String := []
   nontrivial : Bool := false
+  /-- what "distinct" is counted on (default: the op line itself); models whose op lines repeat
+  (e.g. `poll 0`) supply a key that identifies the op *in its history* -/
+  key : Option String := none
 
 /-- Generic replay loop for a model with state `σ`. -/
 def replay {σ : Type} (init : σ) (step : σ → String → String → σ × StepOut)
@@ -67,8 +70,9 @@ def replay {σ : Type} (init : σ) (step : σ → String → String → σ × St
     t := { t with ops := t.ops + 1 }
     if out.nontrivial then
       t := { t with nontrivial := t.nontrivial + 1 }
-      if !seen.contains op then
-        seen := seen.insert op
+      let k := out.key.getD op
+      if !seen.contains k then
+        seen := seen.insert k
         t := { t with distinct := t.distinct + 1 }
     if out.model != im then
       t := { t with diffs := t.diffs + 1 }
